@@ -531,3 +531,51 @@ func c05Mate(c *Ctx, g *gameModel) {
 		}
 	}
 }
+
+// recountGuards: under which conditions does the exact repetition re-count increment?
+func recountGuards(c *Ctx, g *gameModel) (posEq, parityEq bool, detail, where string) {
+	fn := g.identCount
+	where = c.pos(fn.Pos())
+	var incBlock, header *ssa.BasicBlock
+	for _, blk := range fn.Blocks {
+		for _, ins := range blk.Instrs {
+			bo, ok := ins.(*ssa.BinOp)
+			if !ok || bo.Op != token.ADD {
+				continue
+			}
+			if phi, ok := bo.X.(*ssa.Phi); ok && types.Identical(phi.Type(), types.Typ[types.Int]) {
+				if k, ok := constInt(bo.Y); ok && k == 1 {
+					// the accumulator is the int phi that is not compared with the limit
+					isCounter := false
+					if iv, ok := inductionVar(phi); ok && iv.Cond != nil {
+						isCounter = true
+					}
+					if !isCounter {
+						incBlock, header = blk, phi.Block()
+					}
+				}
+			}
+		}
+	}
+	if incBlock == nil {
+		return false, false, "increment of the exact count not found", where
+	}
+	var others []string
+	for _, ge := range guardsOf(incBlock, header) {
+		bo, ok := ge.cond.(*ssa.BinOp)
+		if !ok || bo.Op != token.EQL || !ge.pol {
+			continue
+		}
+		xt := bo.X.Type()
+		switch {
+		case namedOf(xt) != nil && namedOf(xt).Obj().Name() == "Position" && !isPointer(xt):
+			posEq = true
+		case namedOf(xt) != nil && namedOf(xt).Obj().Name() == "Color":
+			parityEq = true
+		default:
+			others = append(others, pathExpr(bo.X)+"=="+pathExpr(bo.Y))
+		}
+	}
+	detail = fmt.Sprintf("increment guarded by exact position equality=%v, equal side to move=%v; further conjuncts (pre-filters): %v", posEq, parityEq, others)
+	return
+}
